@@ -58,6 +58,7 @@ def check(case):
     split_spines = {a.spines[i][k] for i, k, c in S.cells(doc) if c['t'] in ('*^', '*v')}
     keys, evals = [], 0
     primed = K.primed_exporter()
+    ex2, opts2 = kp.Exporter(), kp.ExportOptions()  # one Exporter, one options object whose selection is rewritten per call
 
     def one(ids, tys):
         nonlocal evals
@@ -72,7 +73,12 @@ def check(case):
             raise Bad('exporter-with-a-past', f'spine_ids={ids} spine_types={tys}: an Exporter object that exported other documents and selections before gives a different text than dumps')
         if evals % 3 == 1 and K.via_reused_options(kdoc, **kw) != got:
             raise Bad('options-with-a-past', f'spine_ids={ids} spine_types={tys}: an ExportOptions object that was used for other (narrower) documents before gives a different text than dumps')
-        if evals % 7 == 2 and K.via_dump_file(kdoc, **kw) != got:
+        if evals % 3 == 2:
+            opts2.spine_ids = None if ids is None else list(ids)
+            opts2.spine_types = list(kp.core.tokens.HEADERS) if tys is None else list(tys)
+            if ex2.export_string(kdoc, opts2) != got:
+                raise Bad('options-object-rewritten', f'spine_ids={ids} spine_types={tys}: one Exporter with one ExportOptions object whose selection is changed between exports gives a different text than dumps')
+        if evals % 7 == 2 and K.via_dump_file(kdoc, expect=got, **kw) != got:
             raise Bad('dump-file', f'spine_ids={ids} spine_types={tys}: kernpy.dump writes a different text than dumps returns')
         exp = project(full, exp_rows, a, types, None if ids is None else set(ids), None if tys is None else set(tys))
         if got != exp:
